@@ -146,6 +146,10 @@ let () =
                 Buffer.add_char b (match model_partial_cmp d a x with Some (Some c) -> cmp_char c | Some None -> 'N' | None -> '?')) vs) vs
             | "debug" | "debug_alt" -> List.iter (fun a ->
                 Buffer.add_string b (match model_debug (op = "debug_alt") d a with Some t -> String.escaped t | None -> "?"); Buffer.add_char b '\001') vs
+            | "clone" -> List.iter (fun a ->
+                Buffer.add_string b (match model_clone d a with Some t -> t | None -> "?"); Buffer.add_char b '\001') vs
+            | "clone_from" -> List.iter (fun a -> List.iter (fun x ->
+                Buffer.add_string b (match model_clone_from d a x with Some t -> t | None -> "?"); Buffer.add_char b '\001') vs) vs
             | "hash" -> List.iter (fun a ->
                 Buffer.add_string b (match model_hash d a with Some l -> String.concat "," l | None -> "?"); Buffer.add_char b ';') vs
             | _ -> failwith "op");
